@@ -135,7 +135,7 @@ type taints map[string]bool
 // is never hidden by, what the ordinary runs find.
 var defectOracle = map[string][3]string{
 	// property -> taint (in priority order) -> oracle id
-	"C02": {"signull=signatures_null", "esckey=escaped_key", "casekey=case_variant_member"},
+	"C02": {"", "", ""}, // the three C02 shape defects were repaired in /repo (fix: commits)
 	"C04": {"casekey=case_variant_key", "", ""},
 }
 
